@@ -15,6 +15,7 @@ type ident struct{ user string }
 func (i ident) Get() string { return i.user }
 
 type User struct {
+	Host       string
 	Name       string
 	AuthString string
 	Plugin     string
@@ -106,4 +107,22 @@ func validateMysqlNativePassword(authResponse, salt []byte, stored string) bool 
 	crypt.Reset()
 	crypt.Write(scramble)
 	return bytes.Equal(crypt.Sum(nil), hash)
+}
+
+// Lookup selects an account by client host; the last loopback alias lost its client-host test
+// to operator precedence.
+func (db *DB) Lookup(name string, host string) *User {
+	orig := host
+	if host == "127.0.0.1" {
+		host = "localhost"
+	}
+	for _, u := range db.users {
+		if host == u.Host ||
+			(host == "localhost" && u.Host == "127.0.0.1" || u.Host == "::1") ||
+			u.Host == "%" ||
+			(orig != host && orig == u.Host) {
+			return u
+		}
+	}
+	return nil
 }
